@@ -69,25 +69,26 @@ CHECKS = {
 
 # families added after the two seeded-mutant waves (DESIGN.md section 9), appended to the level text
 EXTRA = {
- "C01": "Also: callers cancelled while blocked behind a fully gated server plus late callers; one-shot transport write faults; calls whose reply was read and dispatched before the connection ended while the caller was still inside its transport write (must still get the reply); and the shipped websocket transport over loopback sockets whose writes stall half-way (2..64 callers, payloads around the 4 KiB frame chunk; wall-clock expiry there is inconclusive).",
- "C02": "Also: ping-pong bidi streams with unary calls alongside over the shipped websocket transport on loopback sockets with stalling writes (every echo in order, io.EOF at the end; wall-clock expiry inconclusive).",
- "C03": "Also: io.EOF and wrapped io.EOF as handler errors; connection loss (io.EOF, wrapped io.EOF, custom error, context.Canceled as the read error) before the trailer arrives (must not look like success) and after the complete response was read (status and messages must survive).",
- "C04": "Also: a handler whose first SendMsg fails to marshal before it sets more headers and a trailer.",
- "C05": "Also: 2-5 KiB recognisable payloads and one-shot write faults in the id histories; unary calls and echo streams at once over the shipped websocket transport (isolation oracle only: foreign content, handler run twice, request nobody sent).",
- "C06": "Also two more rules (a unary request is answered at most once and only after it was sent, never left unanswered on a live connection; a client never resets an id it has not opened) and directed families: send parked across a cancel incl. at the transport's Write entry, unary deadline firing inside the handler, cancel during the open write.",
+ "C01": "Also: callers cancelled while blocked behind a fully gated server plus late callers; one-shot transport write faults; calls whose reply was read and dispatched before the connection ended while the caller was still inside its transport write (must still get the reply); and the shipped websocket transport over loopback sockets whose writes stall half-way (2..64 callers, payloads around the 4 KiB frame chunk; wall-clock expiry there is inconclusive). Third wave: every 8th case first abandons a streaming call on the same connection.",
+ "C02": "Also: ping-pong bidi streams with unary calls alongside over the shipped websocket transport on loopback sockets with stalling writes (every echo in order, io.EOF at the end; wall-clock expiry inconclusive). Third wave: complete-then-connection-end cases (message and trailer read, connection ends, then the caller receives) and streams over the shipped HTTP transport with a slow receiver on a fake clock.",
+ "C03": "Also: io.EOF and wrapped io.EOF as handler errors; connection loss (io.EOF, wrapped io.EOF, custom error, context.Canceled as the read error) before the trailer arrives (must not look like success) and after the complete response was read (status and messages must survive). Third wave: foreign resets that are untyped or lower-case; half of the matrix behind pass-through (plain / chained) server interceptors.",
+ "C04": "Also: a handler whose first SendMsg fails to marshal before it sets more headers and a trailer. Third wave: one directed RPC per case with SendHeader stalled behind the busy connection writer while a second goroutine of the handler calls SetHeader.",
+ "C05": "Also: 2-5 KiB recognisable payloads and one-shot write faults in the id histories; unary calls and echo streams at once over the shipped websocket transport (isolation oracle only: foreign content, handler run twice, request nobody sent). Third wave: every 4th id history through the proxy; writes reported failed although delivered at the end of each history.",
+ "C06": "Also two more rules (a unary request is answered at most once and only after it was sent, never left unanswered on a live connection; a client never resets an id it has not opened) and directed families: send parked across a cancel incl. at the transport's Write entry, unary deadline firing inside the handler, cancel during the open write. Third wave: directed family in which the client's reset reaches the server after the handler returned (trailer held in the writer).",
  "C08": "Also: two grpc-timeout headers on one request (malformed first / valid first).",
  "C09": "Also: the read error's kind varies (io.EOF, wrapped io.EOF, custom, context.Canceled); open and half-close errors are classified separately from end-of-stream.",
- "C10": "Also: unary handlers that complete before the end cause, and up to 12 unary requests (more than the 8 workers) so that requests are still queued at the end.",
- "C11": "Also, against a scripted server: the caller is cancelled while its own send is blocked by transport back-pressure with 3..6 responses unread; the first response is undecodable, the caller stops without cancelling and more responses follow. And over the shipped websocket transport: a caller gives up (cancel / deadline / stream send) while its 64 KiB frame is half-way onto the socket, with 2 calls in flight and a probe afterwards.",
+ "C10": "Also: unary handlers that complete before the end cause, and up to 12 unary requests (more than the 8 workers) so that requests are still queued at the end. Third wave: scenarios whose unary requests all carry one id (different sources); write failures whose error wraps context.Canceled.",
+ "C11": "Also, against a scripted server: the caller is cancelled while its own send is blocked by transport back-pressure with 3..6 responses unread; the first response is undecodable, the caller stops without cancelling and more responses follow. And over the shipped websocket transport: a caller gives up (cancel / deadline / stream send) while its 64 KiB frame is half-way onto the socket, with 2 calls in flight and a probe afterwards. Third wave: a stream open reported failed by the transport although delivered, the handler answering 2..5 messages to the abandoned id; websocket hangs are now verdicts at final states of the socket scenario.",
  "C12": "Also: half-duplex peers that write the whole hostile sequence plus the probe before reading anything (cap-0 link).",
- "C13": "Also: undecodable -bin trailer metadata together with a non-OK status.",
- "C14": "Also: a caller that cancels with responses unread and never touches the stream again; every 10th history runs against a scripted server (cancel/deadline while the send is blocked with 3..6 responses unread; undecodable first response), sampled the same way.",
- "C15": "Also dedicated race workloads: every accessor pair the API allows concurrently on one stream; peers attached to a running proxy by goroutines of their own while other connections fail, are dialled or forward; one stream aborted from its sending and receiving goroutine at once; websocket unary and stream workloads.",
- "C16": "Also: a dial that fails once and later succeeds (redial); a peer re-attached before its old connection fails, and a dialled connection failing while the serve loop is busy (refail).",
- "C17": "Also: spoofed envelopes that already carry a ProxyRecord; context cancellation while the serve loop is held inside the intercepter or the disconnect callback.",
- "C18": "Also: writes started after Cancel(key) returned must fail; an envelope fed after Cancel returned must reach the (new) logical connection; a reader that gives up (context) and retries must not lose an envelope.",
- "C19": "Also: text frames whose payload is a valid encoding; 1 MiB HTTP bodies, where an envelope whose Write returned nil and is not delivered within 15 s is a violation.",
+ "C13": "Also: undecodable -bin trailer metadata together with a non-OK status. Third wave: io.EOF as the closing read error for half of the sequences; a fifth configuration whose stream caller never receives, cancels after the first envelope and never looks again.",
+ "C14": "Also: a caller that cancels with responses unread and never touches the stream again; every 10th history runs against a scripted server (cancel/deadline while the send is blocked with 3..6 responses unread; undecodable first response), sampled the same way. Third wave: outcome 'send of an unencodable message with a live context' and a send failing once in the transport write.",
+ "C15": "Also dedicated race workloads: every accessor pair the API allows concurrently on one stream; peers attached to a running proxy by goroutines of their own while other connections fail, are dialled or forward; one stream aborted from its sending and receiving goroutine at once; websocket unary and stream workloads. Third wave: a transport's read of the envelope inside a library-called Write is attributed to the library caller.",
+ "C16": "Also: a dial that fails once and later succeeds (redial); a peer re-attached before its old connection fails, and a dialled connection failing while the serve loop is busy (refail). Third wave: write-only fault reported while the serve loop is busy; re-attach while the old connection stays open.",
+ "C17": "Also: spoofed envelopes that already carry a ProxyRecord; context cancellation while the serve loop is held inside the intercepter or the disconnect callback. Third wave: the disconnect callback itself re-attaches the failed peer.",
+ "C18": "Also: writes started after Cancel(key) returned must fail; an envelope fed after Cancel returned must reach the (new) logical connection; a reader that gives up (context) and retries must not lose an envelope. Third wave: after Cancel(key) the run loop must keep taking envelopes from the shared transport.",
+ "C19": "Also: text frames whose payload is a valid encoding; 1 MiB HTTP bodies, where an envelope whose Write returned nil and is not delivered within 15 s is a violation. Third wave: a websocket Write cancelled half-way must return, later Writes must return and every accepted envelope arrives in order (hang = violation only at a final state of the socket scenario).",
  "C20": "Also: outcomes 'cancel with a response uncollected' and 'handler fails with io.EOF'; ConnBegin/ConnEnd counts per Serve for every end cause, with unary backlog.",
+ "C07": "Also. Third wave: over the shipped websocket transport, cancel / deadline while a send of the stream is half-way onto the socket, with final-state detection over the loopback sockets (nothing in flight, every goroutine blocked).",
 }
 NOT_YET = "check not built yet in this round (runtime-monitoring design in DESIGN.md section 2); will be claimed once its monitor exists"
 
